@@ -30,10 +30,12 @@ const (
 	dCallChain
 	dLockedFunc
 	dChanState
+	dCallbackFunc
+	dGeneric
 	nDefKinds
 )
 
-var defKindName = [...]string{"named-func", "method", "closure-var", "counter-closure", "method-value", "chan-func", "defer-func", "global-counter", "global-map", "call-chain", "locked-func", "chan-state"}
+var defKindName = [...]string{"named-func", "method", "closure-var", "counter-closure", "method-value", "chan-func", "defer-func", "global-counter", "global-map", "call-chain", "locked-func", "chan-state", "callback-func", "generic-method"}
 
 type c10Def struct {
 	kind    int
@@ -72,6 +74,14 @@ func (d *c10Def) src(j int) string {
 		// a package-level channel used through range and select only (the channel
 		// operations that are cancellable however the code was compiled)
 		return fmt.Sprintf("var q%d = make(chan int, 4)\nfunc Drain%d() int { n := 0; for v := range q%d { n += v }; return n }\nfunc PutGet%d(x int) int { select { case q%d <- x * %d: default: return -2 }; select { case v := <-q%d: return v + %d; default: return -1 } }", j, j, j, j, j, d.a, j, d.b)
+	case dCallbackFunc:
+		// a named function handed to a host function as a callback from inside
+		// another function: the host-callable wrapper is made in that call's frame
+		return fmt.Sprintf("func up%d(r rune) rune { return r + %d }\nfunc CB%d(x int) int { s := strings.Map(up%d, \"ab\"); return x*%d + %d + (int(s[0]) - 97 - %d) + (int(s[1]) - 98 - %d) }", j, d.a, j, j, d.a, d.b, d.a, d.a)
+	case dGeneric:
+		// a generic type with methods; GI uses the instance St[int]; other
+		// instances are first mentioned by later evaluations (genericLit)
+		return fmt.Sprintf("type St%d[T any] struct{ xs []T }\nfunc (s *St%d[T]) Push(v T) { s.xs = append(s.xs, v) }\nfunc (s *St%d[T]) Len() int { return len(s.xs) }\nfunc (s *St%d[T]) Top() T { return s.xs[len(s.xs)-1] }\nfunc GI%d(x int) int { s := &St%d[int]{}; s.Push(x); s.Push(x * %d); return s.Top() + %d + (s.Len() - 2) }", j, j, j, j, j, j, d.a, d.b)
 	case dCallChain:
 		return fmt.Sprintf("func ca%d(x int) int { return cb%d(x) + %d }\nfunc cb%d(x int) int { return cc%d(x) * %d }\nfunc cc%d(x int) int { if x > 100 { return x }; return x + 1 }", j, j, d.b, j, j, d.a, j)
 	}
@@ -104,14 +114,32 @@ func (d *c10Def) callee(j int) string {
 		return fmt.Sprintf("L%d", j)
 	case dChanState:
 		return fmt.Sprintf("PutGet%d", j)
+	case dCallbackFunc:
+		return fmt.Sprintf("CB%d", j)
+	case dGeneric:
+		return fmt.Sprintf("GI%d", j)
 	}
 	return ""
+}
+
+// genericLit is a function literal which uses an instance of the generic type of
+// definition j that no earlier evaluation may have mentioned (sel picks the type
+// argument); it computes the same function as GI.
+func (d *c10Def) genericLit(j, sel int) string {
+	ty, v1, v2 := "string", `"p"`, `"q"`
+	switch sel % 3 {
+	case 1:
+		ty, v1, v2 = "float64", "1.5", "2.5"
+	case 2:
+		ty, v1, v2 = "bool", "true", "false"
+	}
+	return fmt.Sprintf("func(x int) int { s := &St%d[%s]{}; s.Push(%s); s.Push(%s); if s.Top() != %s { return -1 }; return x*%d + %d + (s.Len() - 2) }", j, ty, v1, v2, v2, d.a, d.b)
 }
 
 // model applies one call and returns the expected result.
 func (d *c10Def) model(x int) int {
 	switch d.kind {
-	case dFunc, dClosureVar, dChanFunc, dLockedFunc, dChanState:
+	case dFunc, dClosureVar, dChanFunc, dLockedFunc, dChanState, dCallbackFunc, dGeneric:
 		return x*d.a + d.b
 	case dMethod:
 		return x + d.b*d.a
@@ -172,9 +200,9 @@ func RunC10(t *testing.T, tape *Tape) *Outcome {
 		case 0, 1:
 			steps = append(steps, c10Step{Kind: "cancel", CK: tape.Choose(nCancelKinds), K: 1 + tape.Choose(60), Def: tape.Choose(ndefs)})
 		case 2:
-			steps = append(steps, c10Step{Kind: "use-eval", Def: tape.Choose(ndefs), Arg: 1 + tape.Choose(9)})
+			steps = append(steps, c10Step{Kind: "use-eval", Def: tape.Choose(ndefs), Arg: 1 + tape.Choose(9), K: tape.Choose(6)})
 		case 3:
-			steps = append(steps, c10Step{Kind: "use-ctx", Def: tape.Choose(ndefs), Arg: 1 + tape.Choose(9)})
+			steps = append(steps, c10Step{Kind: "use-ctx", Def: tape.Choose(ndefs), Arg: 1 + tape.Choose(9), K: tape.Choose(6)})
 		case 4:
 			steps = append(steps, c10Step{Kind: "use-host", Def: tape.Choose(ndefs), Arg: 1 + tape.Choose(9)})
 		}
@@ -187,7 +215,11 @@ func RunC10(t *testing.T, tape *Tape) *Outcome {
 		if s.Kind == "cancel" {
 			hist = append(hist, fmt.Sprintf("cancel %s k=%d", cancelKindName[s.CK], s.K))
 		} else {
-			hist = append(hist, fmt.Sprintf("%s %s(%d)", s.Kind, defs[s.Def].callee(s.Def), s.Arg))
+			alt := ""
+			if defs[s.Def].kind == dGeneric && s.K%2 == 1 {
+				alt = fmt.Sprintf(" [through a literal using type argument %d]", (s.K/2)%3)
+			}
+			hist = append(hist, fmt.Sprintf("%s %s(%d)%s", s.Kind, defs[s.Def].callee(s.Def), s.Arg, alt))
 		}
 	}
 	o.Desc = strings.Join(hist, "; ")
@@ -218,6 +250,10 @@ func RunC10(t *testing.T, tape *Tape) *Outcome {
 			it := NewInterpFS(nil)
 			if _, err := it.Eval(`import "sync"`); err != nil {
 				setupErr = "import of sync failed: " + err.Error()
+				return
+			}
+			if _, err := it.Eval(`import "strings"`); err != nil {
+				setupErr = "import of strings failed: " + err.Error()
 				return
 			}
 			if _, err := it.Eval(`import "verif/sim/host"`); err != nil {
@@ -253,6 +289,12 @@ func RunC10(t *testing.T, tape *Tape) *Outcome {
 					}
 					want := d.model(s.Arg)
 					src := fmt.Sprintf("%s(%d)", d.callee(s.Def), s.Arg)
+					if d.kind == dGeneric && s.K%2 == 1 {
+						// (through a variable: the value Eval returns for a bare call of
+						// a function literal is not the call's result, which is not C10's
+						// business)
+						src = fmt.Sprintf("gr%d := %s(%d); gr%d", si, d.genericLit(s.Def, s.K/2), s.Arg, si)
+					}
 					var v reflect.Value
 					var err error
 					if s.Kind == "use-ctx" {
@@ -299,7 +341,12 @@ func RunC10(t *testing.T, tape *Tape) *Outcome {
 					case xBlocked:
 						src = "cc := make(chan int); <-cc"
 					case xExpired:
-						src = "for { host.Tick(2) }"
+						// never started; what its compilation did (instantiating generic
+						// types, resolving the definitions) must not harm later uses
+						src = fmt.Sprintf("for { host.Tick(%s(2)) }", d.callee(s.Def))
+						if d.kind == dGeneric {
+							src = fmt.Sprintf("for { host.Tick(%s(2)) }", d.genericLit(s.Def, s.K))
+						}
 						cancel()
 					case xGoroutines:
 						src = "go func() { for { host.Tick(3) } }(); go func() { c2 := make(chan int); c2 <- 1 }(); select {}"
